@@ -453,6 +453,16 @@ func (s *Spy) Write(b []byte) (int, error) {
 	return len(b), nil
 }
 
+// StringSpy is a spy that also has a WriteString method, as net/http's own
+// response writer (and httptest's recorder) have.
+type StringSpy struct{ *Spy }
+
+func (s StringSpy) WriteString(str string) (int, error) {
+	s.Spy.Body = append(s.Spy.Body, str...)
+	s.Spy.Log = append(s.Spy.Log, fmt.Sprintf("W %d", len(str)))
+	return len(str), nil
+}
+
 // Status is the first status line the spy received (0 = none).
 func (s *Spy) Status() int {
 	if len(s.Codes) == 0 {
